@@ -26,6 +26,10 @@ def plan(ctx):
             pats = sorted({(m["om"], m["rm"]) for m in fam if m["rate"] == rate and (m["k"], m["r"]) == (k, r) and m["kind"] == "dec_basis"})
             maxloss = [p for p in pats if families.popcount(p[0]) + families.popcount(p[1]) == k]
             sel = {rnd.choice(maxloss), rnd.choice(pats)}
+            # a pattern whose given recovery shards are NOT an index prefix (a missing one below a given one)
+            nonprefix = [p for p in pats if p[1] & (p[1] + 1)]
+            if nonprefix:
+                sel.add(rnd.choice(nonprefix))
             for (om, rm) in sel:
                 quick.add((rate, k, r, om, rm))
     hs = []
